@@ -4,6 +4,7 @@ import (
 	"go/constant"
 	"go/token"
 	"go/types"
+	"sort"
 	"strconv"
 	"strings"
 
@@ -649,10 +650,61 @@ func (o *Origins) localValue(a *ssa.Alloc, field int, at ssa.Instruction, depth 
 	if len(alts) == 0 {
 		return opaque("mem:" + a.Comment)
 	}
+	var res *Term
 	if len(alts) == 1 {
-		return alts[0]
+		res = alts[0]
+	} else {
+		res = &Term{Op: "phi", Name: "phi", Args: alts}
 	}
-	return &Term{Op: "phi", Name: "phi", Args: alts}
+	if field < 0 {
+		// whole-variable load: apply the field stores that reach this point on top of the base value
+		for _, fi := range o.storedFields(a) {
+			fdefs, fentry := o.reachingDefs(a, fi, at)
+			var vals []*Term
+			only := true
+			for _, st := range fdefs {
+				if fa, ok := st.Addr.(*ssa.FieldAddr); ok && fa.X == a && fa.Field == fi {
+					vals = append(vals, o.of(st.Val, depth+2))
+				} else {
+					only = false // a whole-variable store reaches too: the field may still have the base's value
+				}
+			}
+			if len(vals) == 0 {
+				continue
+			}
+			var v *Term
+			if len(vals) == 1 {
+				v = vals[0]
+			} else {
+				v = &Term{Op: "phi", Name: "phi", Args: vals}
+			}
+			name := "with:" + fieldName(a.Type(), fi)
+			if !only || fentry {
+				name = "maywith:" + fieldName(a.Type(), fi)
+			}
+			res = &Term{Op: "call", Name: name, Args: []*Term{res, v}}
+		}
+	}
+	return res
+}
+
+// storedFields lists the fields of local a that are assigned individually somewhere in the function.
+func (o *Origins) storedFields(a *ssa.Alloc) []int {
+	seen := map[int]bool{}
+	var out []int
+	for _, r := range *a.Referrers() {
+		if fa, ok := r.(*ssa.FieldAddr); ok && !seen[fa.Field] {
+			for _, rr := range *fa.Referrers() {
+				if s, ok := rr.(*ssa.Store); ok && s.Addr == fa {
+					seen[fa.Field] = true
+					out = append(out, fa.Field)
+					break
+				}
+			}
+		}
+	}
+	sort.Ints(out)
+	return out
 }
 
 // escapes: the address of a is passed to a call or stored somewhere.
